@@ -248,8 +248,15 @@ func (s *OS[T, P]) RunOps(start string, ops [][]string, preds Pred) (key, expect
 		// every step: Get-all equals the model
 		got, gerr := s.ReadAll(o)
 		if gerr != nil {
+			if preds&PredRoundTrip != 0 {
+				// C02 speaks about every object obtainable through the API, also one that does not read back:
+				// its Vector() must be accepted and parse to an equal object (no model needed for that)
+				if k, e, ob := s.rawRoundTrip(o); k != "" {
+					return k, e, fmt.Sprintf("step %d after Set(%q,%q): %s", step, abv, val, ob)
+				}
+			}
 			if preds&(PredSetClosure|PredWellFormed) == 0 {
-				return "", "", "" // an ill-formed object is C07's / C09's finding
+				return "", "", "" // an ill-formed object as such is C07's / C09's finding
 			}
 			return "Set(" + abv + ")/ill-formed-after", "well-formed object", fmt.Sprintf("step %d after Set(%q,%q): %v", step, abv, val, gerr)
 		}
@@ -275,6 +282,36 @@ func (s *OS[T, P]) RunOps(start string, ops [][]string, preds Pred) (key, expect
 	}
 	if k, e, ob := s.stateInvariants(model, o, preds); k != "" {
 		return k, e, ob
+	}
+	return "", "", ""
+}
+
+// rawRoundTrip is C02 without a model: Vector() of o is accepted by the version's parser and the parsed object
+// equals o under == and on every Get (same value, same error presence).
+func (s *OS[T, P]) rawRoundTrip(o T) (key, expected, observed string) {
+	ver := s.I.Ver
+	var vec string
+	oc := o
+	if p := Safely(func() { vec = P(&oc).Vector() }); p != nil {
+		return "Vector-panic", "no panic", fmt.Sprint(p)
+	}
+	var back *T
+	var err error
+	if p := Safely(func() { back, err = s.I.Parse(vec) }); p != nil {
+		return "Parse-panic", "no panic", fmt.Sprint(p)
+	}
+	if err != nil || back == nil {
+		return "roundtrip/rejected", "ParseVector(Vector()) accepted", fmt.Sprintf("Vector() = %q, err=%v (object %v)", vec, err, s.I.Describe(o))
+	}
+	if *back != o {
+		return "roundtrip/not-equal", fmt.Sprintf("%v", s.I.Describe(o)), fmt.Sprintf("%v from %s", s.I.Describe(*back), vec)
+	}
+	for _, m := range ver.Metrics {
+		v1, e1 := P(&oc).Get(m.Abv)
+		v2, e2 := P(back).Get(m.Abv)
+		if v1 != v2 || (e1 == nil) != (e2 == nil) {
+			return "roundtrip/Get-differs-" + m.Abv, fmt.Sprintf("(%q, %v)", v1, e1), fmt.Sprintf("(%q, %v) after parsing %s", v2, e2, vec)
+		}
 	}
 	return "", "", ""
 }
@@ -502,6 +539,11 @@ func (s *OS[T, P]) Sweep(dims []Dim, bg spec.Assignment, preds Pred, workers int
 						// an object reached through legal Set calls that does not read back at all: reported with the
 						// exact Set path of the sweep (canonical build of the background, then the odometer steps)
 						s.reportPath(sweepPath(ver, dims, bg, lo, idx), preds, rerr.Error())
+					} else if preds&PredRoundTrip != 0 {
+						// not C02's business as such, but its Vector() must still be accepted and parse back to it
+						if k, _, ob := s.rawRoundTrip(o); k != "" {
+							s.reportPath(sweepPath(ver, dims, bg, lo, idx), preds, ob)
+						}
 					}
 					continue
 				}
